@@ -88,6 +88,34 @@ theorem getter_last_write (m : FMap) (hm : sized stdMeta m) (b : Nat) :
   rw [gen_meta_eq_std]
   exact doFindOption_canonical (gen_meta_eq_std ▸ gen_meta_wf) hm b
 
+/-- the typed getters (`do_find_option(F).to<T>()` with `sizeof(T) = width`, or a `memcpy` of `width` bytes out of the
+    option) succeed with the stored value whenever the width is the field's size (integral conversion) or at most the
+    field's size (partial `memcpy`, e.g. `channel_freq`) — which `accessors_paired` establishes for the generated
+    getter table (all widths equal the field size except `channel_freq`, which reads the first 2 of 4 bytes). -/
+theorem typed_getter_last_write (m : FMap) (hm : sized stdMeta m) (bit width : Nat) (integral : Bool)
+    (hw : width = stdMeta.size bit ∨ (integral = false ∧ width ≤ stdMeta.size bit)) :
+    getField genMeta (canonical stdMeta m) bit width integral =
+      match m bit with
+      | some v => .ok v
+      | none => .throw .fieldNotPresent := by
+  unfold getField
+  rw [getter_last_write m hm bit]
+  cases hmb : m bit with
+  | none => rfl
+  | some v =>
+    have hv := (hm bit v hmb).2
+    simp only
+    rcases hw with hw | ⟨hi, hw⟩
+    · have h1 : (v.length != width) = false := by simp; omega
+      have h2 : ¬ (v.length < width) := by omega
+      simp [h1, h2]
+    · have h2 : ¬ (v.length < width) := by omega
+      simp [hi, h2]
+
+theorem getter_widths :
+    ∀ g ∈ Gen.getters, g.2.2 = stdMeta.size g.2.1 ∨ (g.1 = "channel_freq" ∧ g.2.2 ≤ stdMeta.size g.2.1) := by
+  decide
+
 /-- **present = domain** — `present()` is the OR of the flags of exactly the written fields. -/
 theorem present_is_domain (m : FMap) (hm : sized stdMeta m) :
     present genMeta (canonical stdMeta m) = .ok (presentWord (fieldList stdMeta m)) ∧
